@@ -84,29 +84,72 @@ class TooManyCells(Exception):
     pass
 
 
-def cells(atoms, hyps, limit=4096):
-    """all-SAT over the atoms under the (linear part of the) hypotheses"""
+def cells(atoms, hyps, limit=4096, abstract=False):
+    """all-SAT over the atoms under the (linear part of the) hypotheses.  If the solver answers
+    unknown (nonlinear atoms), the enumeration is redone with the nonlinear atoms abstracted by
+    free Booleans (combinations that are infeasible are then refuted by the per-cell nlsat query,
+    which sees all hypotheses)."""
     if not atoms:
         return [[]]
     s = z3.Solver()
-    s.set("timeout", 20000)
+    s.set("timeout", 5000)
     for h in hyps:
         if is_linear(h):
             s.add(h)
+    proxies = []
+    for k, a in enumerate(atoms):
+        if is_linear(a) or not abstract:
+            proxies.append(a)
+        else:
+            proxies.append(z3.Bool(f"cellatom!{k}"))
     out = []
     while True:
         r = s.check()
         if r == z3.unsat:
             break
         if r != z3.sat:
+            if not abstract:
+                return cells(atoms, hyps, limit, abstract=True)
             raise TooManyCells("cell enumeration returned unknown")
         m = s.model()
-        cell = [(a, z3.is_true(m.eval(a, model_completion=True))) for a in atoms]
-        out.append(cell)
-        s.add(z3.Or([z3.Not(a) if v else a for a, v in cell]))
+        vals = [z3.is_true(m.eval(p, model_completion=True)) for p in proxies]
+        out.append([(a, v) for a, v in zip(atoms, vals)])
+        s.add(z3.Or([z3.Not(p) if v else p for p, v in zip(proxies, vals)]))
         if len(out) > limit:
             raise TooManyCells(f"more than {limit} cells")
     return out
+
+
+def canonical_atoms(goal):
+    """rewrite nonlinear comparison atoms of If-conditions to a canonical  D < 0 / D <= 0  form
+    (D sum-of-monomials, sign fixed), so that the same condition written in two ways becomes one atom"""
+    atoms = [a for a in ite_atoms([goal]) if not is_linear(a)]
+    sub = []
+    for a in atoms:
+        if not (z3.is_app(a) and a.num_args() == 2 and z3.is_real(a.arg(0))):
+            continue
+        k = a.decl().kind()
+        l, r = a.arg(0), a.arg(1)
+        if k == z3.Z3_OP_LT:
+            d, strict = l - r, True
+        elif k == z3.Z3_OP_LE:
+            d, strict = l - r, False
+        elif k == z3.Z3_OP_GT:
+            d, strict = r - l, True
+        elif k == z3.Z3_OP_GE:
+            d, strict = r - l, False
+        else:
+            continue
+        d = z3.simplify(d, som=True)
+        nd = z3.simplify(-d, som=True)
+        if nd.sexpr() < d.sexpr():
+            # d OP 0  <=>  not (nd OP' 0) with OP' the other strictness
+            new = z3.Not(nd <= 0) if strict else z3.Not(nd < 0)
+        else:
+            new = (d < 0) if strict else (d <= 0)
+        if not new.eq(a):
+            sub.append((a, new))
+    return z3.substitute(goal, *sub) if sub else goal
 
 
 # ------------------------------------------------------------------------------------------------
@@ -237,6 +280,7 @@ def prove(goal, hyps=None, timeout_ms=20000, cell_limit=4096, symbols=None, use_
     if z3.is_true(goal):
         STATS["syntactic"] += 1
         return Verdict("unsat", syntactic=True)
+    goal = canonical_atoms(goal)
     atoms = ite_atoms([goal])
     try:
         cs = cells(atoms, hyps, cell_limit)
